@@ -164,7 +164,19 @@ def _post_cfactor(snap, res, *, district, subgraph_variables, subgraph_probabili
     ok = set(district) <= set(subgraph_variables) <= set(ref.V) and _is_cc(ref, district, subgraph_variables)
     # Q[H] is computable from Q[A] by Lemma 1/4 for a c-component H of G[A]; with a plain probability as input the
     # routine uses Lemma 1, which is stated for the joint of an *ancestral* set
-    _guarantee("compute_c_factor", res, subgraph_probability, set(subgraph_variables), set(district), ok)
+    inp = subgraph_probability
+    from y0.dsl import Probability, Sum
+
+    if isinstance(inp, Probability) and not inp.parents and ok:
+        extra = [v for v in inp.children if v not in set(subgraph_variables)]
+        if extra:
+            # the joint of a LARGER set together with the ancestral set's variables (``graph.joint_probability()`` and a
+            # smaller ancestral set, the form the library's own tests use): Lemma 1 works in the margin of
+            # ``subgraph_variables``, so the input stands for the marginal over them
+            kernel.count("C17:compute_c_factor:joint-over-a-superset-of-the-ancestral-set")
+            with kernel.quiet():
+                inp = Sum.safe(inp, extra)
+    _guarantee("compute_c_factor", res, inp, set(subgraph_variables), set(district), ok)
 
 
 def _post_lemma3(snap, res, *, ancestral_set, subgraph_variables, subgraph_probability, graph_topo):
@@ -300,6 +312,7 @@ def run_graph(ctx, gd, rng, K):
         rest = [v for v in topo if v not in A]
         if rest:
             forms["sum"] = Sum.safe(mk(topo), rest)
+            forms["whole-joint"] = mk(topo)
         if len(Al) >= 2:
             forms["product"] = Product.safe(mk(Al[i] | Al[:i]) if i else mk(Al[0]) for i in range(len(Al)))
             # the chain rule holds along ANY order of A, also one that is not a topological order of the graph
@@ -414,6 +427,8 @@ def replay(case):
         qa = mk(Al)
         if form == "sum" and rest:
             qa = Sum.safe(mk(topo), rest)
+        elif form == "whole-joint":
+            qa = mk(topo)
         elif form == "product" and len(Al) >= 2:
             qa = Product.safe(mk(Al[i] | Al[:i]) if i else mk(Al[0]) for i in range(len(Al)))
         elif form == "product-any-order" and case.get("any_order"):
